@@ -270,4 +270,23 @@ Fixpoint wf (d : nat) (f : frame) : Prop :=
     end
   end.
 
+(** the same as a boolean (evaluable) predicate *)
+Fixpoint wfb (d : nat) (f : frame) : bool :=
+  match d with
+  | O => false
+  | S d' =>
+    match f with
+    | FSimple b | FError b => negb (has_crlf b)
+    | FInt z => in_i64 z
+    | FBulk b => len b <=? i64_max
+    | FNullBulk | FNullArray | FNull | FBool _ => true
+    | FNoResponse => false
+    | FDouble b => match dparse (dprint b) with Some b' => b' =? b | None => false end
+                   && negb (has_crlf (dprint b))
+    | FArray l => (len l <=? i64_max) && forallb (wfb d') l
+    | FMap l => (len l / 2 <=? u64_max) && Z.even (len l) && forallb (wfb d') l
+    | FSet l => (len l <=? u64_max) && forallb (wfb d') l
+    end
+  end.
+
 End Resp.
